@@ -239,4 +239,14 @@ def spawnRoots : List Script → State → State
 def init (sticky : Bool) (scripts : List Script) (roots : Nat) : State :=
   spawnRoots (scripts.take roots) { pool := scripts.drop roots, sticky := sticky }
 
+/-! ### the executor seen through `Weak` references (`Task::executor`, `Spawner::state`) -/
+
+/-- `Task::wake` through `self.executor.upgrade()`: `none` = the executor has been dropped, the wake-up
+    is discarded -/
+def wakeWeak (e : Option State) (t : Nat) : Option State := e.map (fun s => wake s t)
+
+/-- `Spawner::spawn` / `Spawner::spawn_pinned`: `none` = `Err(SpawnError(future))` (executor dropped, or
+    `Spawner::dead()`); otherwise the task is pushed to the back of the queue -/
+def spawnWeak (e : Option State) (sc : Script) : Option State := e.map (fun s => spawnNew s s.ntasks sc)
+
 end YashModel.Executor
